@@ -156,6 +156,46 @@ def layers(tier):
                     'a Size / Prefix / PositionFilter object used once and then given another value for its documented '
                     'threshold attribute (6 changes, lowered and raised): filter_tables and filter_pair on UNIV(5) keep '
                     'every pair that meets the current threshold', min_nontrivial=1000, chunksize=1))
+    # thresholds given as floats (the documented type) for the two measures whose bounds are token counts
+    Kf = 6
+    fl = [1.0, 2.0, 2.5, 3.0, 4.5]
+    jobs = []
+    for name in ('Size', 'Prefix', 'Position'):
+        for lo in range(0, 1 << Kf, 32):
+            jobs.append({'filter': name, 'meas': 'OVERLAP', 'ts': fl, 'K': Kf, 'lo': lo, 'hi': lo + 32, 'pres': pres})
+    Ls.append(Layer('float-overlap-pairs', 'checks.filters:w_fpair_sets', jobs,
+                    'filter_pair of Size/Prefix/PositionFilter under OVERLAP with float thresholds %s on all ordered '
+                    'pairs of non-empty subsets of %d tokens' % (fl, Kf), min_nontrivial=1000, chunksize=2))
+    jobs = []
+    for name in ('Size', 'Prefix', 'Position', 'Overlap'):
+        for t in fl:
+            jobs.append({'filter': name, 'meas': 'OVERLAP', 't': t, 'gen': {'gen': 'univ', 'K': Kf}, 'n_jobs': 2,
+                         'pres': pres})
+            jobs.append({'filter': name, 'meas': 'OVERLAP', 't': t, 'gen': {'gen': 'univ', 'K': 4}, 'n_jobs': 1,
+                         'pres': pres, 'candset': True, 'tables': False})
+    Ls.append(Layer('float-overlap-tables', 'checks.filters:w_ftables', jobs,
+                    'filter_tables on UNIV(%d) and filter_candset on UNIV(4) under OVERLAP with float thresholds %s'
+                    % (Kf, fl), min_nontrivial=1000, chunksize=2))
+    jobs = []
+    for name in ('Size', 'Prefix', 'Position'):
+        for q in (1, 2, 3):
+            for padding in (True, False):
+                for t in (0.0, 1.0, 1.5, 2.0, 2.7):
+                    jobs.append({'filter': name, 'q': q, 'padding': padding, 't': t, 'alpha': 'ab', 'maxlen': 5})
+    Ls.append(Layer('float-edit-pairs', 'checks.filters:w_fpair_edit', jobs,
+                    'filter_pair under EDIT_DISTANCE with float thresholds {0.0,1.0,1.5,2.0,2.7} on all pairs of '
+                    'STR({a,b},5) x q 1..3 x padding', min_nontrivial=1000, chunksize=1))
+    jobs = []
+    for name in ('Size', 'Prefix', 'Position'):
+        for q in (2, 3):
+            for padding in (True, False):
+                for t in (1.0, 1.5, 2.0):
+                    jobs.append({'filter': name, 'q': q, 'padding': padding, 't': t, 'alpha': 'ab', 'maxlen': 5,
+                                 'n_jobs': 1 + (q % 2), 'candset': t == 1.0, 'pres': pres})
+    Ls.append(Layer('float-edit-tables', 'checks.filters:w_ftables_edit', jobs,
+                    'filter_tables / filter_candset under EDIT_DISTANCE with float thresholds {1.0,1.5,2.0} on the '
+                    'complete table STR({a,b},5) (strings long enough for the prefix to be a proper prefix)',
+                    min_nontrivial=1000, chunksize=1))
     k, r = 3, 2
     nsc = len(tiny_scenarios(k, r))
     jobs = []
